@@ -382,6 +382,15 @@ func (w *World) buildACL(v *View, cp CurParams) (*TxSpec, string) {
 		}
 		na = om
 	}
+	if w.R.Chance(12) {
+		// the replacement list names a key twice (same or different address)
+		dk := AllParamKeys[w.R.Intn(len(AllParamKeys))]
+		da := w.All[w.R.Intn(len(w.All))].Addr
+		if w.R.Chance(30) {
+			da = na.GetOwner(dk)
+		}
+		na = append(na, govTypes.ACLPair{Key: dk, Addr: da})
+	}
 	sender := w.currentOwner(v, "gov/acl")
 	label := "acl"
 	if sender == nil || w.R.Chance(20) {
